@@ -173,6 +173,18 @@ CHECKS['C16'] = dict(
          'absolute patterns and foreign-platform REALPATH, user FORCEWIN/FORCEUNIX ignored, no duplicates.',
     note='Patterns whose matches pathlib re-spells (., .., //, SCANDOTDIR) are outside the match<=>rglob clause.')
 
+CHECKS['C15'] = dict(
+    level='exploration', engine='SEQ', design='6 C15',
+    technique='exhaustive enumeration of abort points, raising-hook positions and operation sequences on real objects against '
+              'a reference model built from the uninterrupted trace; controlled two-thread scheduler (sys.settrace line '
+              'events + baton) placing kill() before every line event of the walking thread',
+    text='Six fixed trees: kill() from every hook invocation index and from the consumer between any two results, hooks '
+         'raising at every index (with and without on_skip values); every operation sequence up to length 6 (thorough 7) over '
+         '{match, imatch, next, kill, reset, is_aborted, get_skipped} compared step by step with the model (results, '
+         'on_reset count, skipped counter, abort flag); kill from a second thread at every line-level position.',
+    note='The second thread has a single atomic step, so its placement before each line event of the first thread is the '
+         'complete interleaving space of this harness; asynchronous kill is judged as prefix + at most one further result.')
+
 PENDING = {}
 
 
